@@ -33,6 +33,9 @@ type report struct {
 	Delegation       string   `json:"delegation,omitempty"`
 	Assumed          []string `json:"assumed,omitempty"`
 	Paths            int      `json:"paths,omitempty"`
+	Fuel             []string `json:"fuel_parameters,omitempty"` // sub-step loops: explicit fuel arguments of step
+	Whole            bool     `json:"whole_function,omitempty"`  // translated as a whole (series as lists), not per step
+	NotModelled      []string `json:"not_modelled,omitempty"`
 }
 
 type abstractBranch struct {
@@ -149,9 +152,24 @@ func (k *kernel) translate() (text string, rep report) {
 		}
 	}
 	// parameters
+	k.idx = scanIndexVectors(fn.Body)
+	seriesNames := map[string]bool{}
+	for _, fld := range fn.Type.Params.List {
+		for _, n := range fld.Names {
+			if k.isSeriesType(fld.Type, k.imp) {
+				seriesNames[n.Name] = true
+			}
+		}
+	}
+	tabs := k.scanTables(seriesNames)
 	for _, fld := range fn.Type.Params.List {
 		for _, n := range fld.Names {
 			switch {
+			case k.isSeriesType(fld.Type, k.imp) && tabs[n.Name]: // a table: read at constant indices / passed whole
+				v := k.declare(n, vList)
+				v.param = true
+				k.scalars = append(k.scalars, v)
+				k.tableSeries = append(k.tableSeries, v)
 			case k.isSeriesType(fld.Type, k.imp):
 				v := k.declare(n, vSeries)
 				v.param = true
@@ -163,8 +181,15 @@ func (k *kernel) translate() (text string, rep report) {
 				v.state = k.retNames[n.Name] // a parameter cannot be redeclared in the function's outermost block
 				k.scalars = append(k.scalars, v)
 			case isIdent(fld.Type, "int"):
-				k.declare(n, vInt)
-				k.ints = append(k.ints, n.Name)
+				v := k.declare(n, vIntVar)
+				v.param = true
+				v.state = k.retNames[n.Name]
+				k.scalars = append(k.scalars, v)
+			case k.leanType(fld.Type, k.imp, false) == "List α":
+				v := k.declare(n, vSlice)
+				v.param = true
+				v.state = k.retNames[n.Name]
+				k.scalars = append(k.scalars, v)
 			case funcTypeOf(k.p, fld.Type) != nil:
 				if _, _, ok := floatSignature(funcTypeOf(k.p, fld.Type)); !ok || k.funcBind[n.Name] == nil {
 					k.fail(fld, "function-valued parameter %s (translated only through the callers that bind it to a function)", n.Name)
@@ -182,7 +207,8 @@ func (k *kernel) translate() (text string, rep report) {
 	}
 	if fn.Type.Results != nil {
 		for _, fld := range fn.Type.Results.List {
-			if !isIdent(fld.Type, "float64") {
+			lt := k.leanType(fld.Type, k.imp, false)
+			if lt == "" {
 				k.fail(fld, "result of a type other than float64")
 			}
 			if len(fld.Names) == 0 {
@@ -190,10 +216,10 @@ func (k *kernel) translate() (text string, rep report) {
 			}
 			for _, n := range fld.Names {
 				k.nres++
-				v := k.declare(n, vFloat)
+				v := k.declare(n, kindOfType(lt))
 				k.results = append(k.results, v)
 				k.preLocals = append(k.preLocals, v)
-				k.preLets = append(k.preLets, fmt.Sprintf("let %s : α := Num.zero", v.lean))
+				k.preLets = append(k.preLets, fmt.Sprintf("let %s : %s := %s", v.lean, lt, zeroOf(lt)))
 			}
 		}
 	}
@@ -273,7 +299,7 @@ func (k *kernel) translate() (text string, rep report) {
 			if ok {
 				v = k.lookup(id.Name)
 			}
-			if v == nil || v.kind != vFloat {
+			if v == nil || !(v.kind == vFloat || v.kind == vIntVar || v.kind == vSlice) {
 				k.fail(r, "returned expression that is not a float64 variable")
 			}
 			for _, o := range vs {
@@ -306,10 +332,34 @@ func (k *kernel) translate() (text string, rep report) {
 		}
 	}
 
-	// find the loop
+	// find the loop: the LAST top-level loop whose header is `for i := 0; i < <length of a series>; i++`
 	loopAt := -1
+	lenNames := map[string]bool{}
 	for i, s := range body {
-		if _, ok := s.(*ast.ForStmt); ok {
+		if as, ok := s.(*ast.AssignStmt); ok && len(as.Lhs) == 1 && len(as.Rhs) == 1 && as.Tok == token.DEFINE {
+			if c, ok := as.Rhs[0].(*ast.CallExpr); ok {
+				if sel, ok := c.Fun.(*ast.SelectorExpr); ok && sel.Sel.Name == "Len1" {
+					if id, ok := as.Lhs[0].(*ast.Ident); ok {
+						lenNames[id.Name] = true
+					}
+				}
+			}
+		}
+		if f, ok := s.(*ast.ForStmt); ok {
+			if _, _, hi, incl, ok := rangeHeader(f); ok && !incl {
+				isLen := false
+				if id, ok := hi.(*ast.Ident); ok && lenNames[id.Name] {
+					isLen = true
+				}
+				if c, ok := hi.(*ast.CallExpr); ok {
+					if sel, ok := c.Fun.(*ast.SelectorExpr); ok && sel.Sel.Name == "Len1" {
+						isLen = true
+					}
+				}
+				if !isLen {
+					continue // a loop over an int range before the time loop
+				}
+			}
 			if loopAt >= 0 {
 				k.fail(s, "second loop")
 			}
@@ -319,22 +369,31 @@ func (k *kernel) translate() (text string, rep report) {
 	if loopAt < 0 {
 		k.fail(fn, "no loop over the series")
 	}
-	if loopAt != len(body)-1 {
-		k.fail(body[loopAt+1], "statement after the loop other than the final return")
-	}
+	postStmts := body[loopAt+1:] // statements after the loop: the definition `final`
 	k.hasLoop = true
 	// pre-loop statements; the state variables may be declared there, so they are resolved afterwards
 	var guardRets []*ast.ReturnStmt
-	for _, s := range body[:loopAt] {
+	preList := body[:loopAt]
+	var scanned []ast.Stmt // a returning branch (guard, delegation, abstract branch) is not part of guard / pre / init
+	for _, s := range preList {
+		if is, ok := s.(*ast.IfStmt); !ok || !endsPath(is) {
+			scanned = append(scanned, s)
+		}
+	}
+	k.prePartial = k.nodePartial(&ast.BlockStmt{List: scanned})
+	k.partial = k.prePartial
+	for _, s := range preList {
 		switch s := s.(type) {
 		case *ast.DeclStmt:
-			k.localDecl(0, s)
+			k.localDecl(k.preInd, s)
+		case *ast.ForStmt:
+			k.stmts([]ast.Stmt{s}, k.preInd, func(int) {})
 		case *ast.IfStmt:
 			if s.Init != nil {
 				k.fail(s, "if with an init statement")
 			}
 			if !endsPath(s) { // only assigns: merged like in the loop
-				k.stmts([]ast.Stmt{s}, 0, func(int) {})
+				k.stmts([]ast.Stmt{s}, k.preInd, func(int) {})
 				continue
 			}
 			last, _ := lastStmt(s.Body).(*ast.ReturnStmt)
@@ -343,11 +402,28 @@ func (k *kernel) translate() (text string, rep report) {
 			}
 			c, _ := k.boolean(s.Cond)
 			flush()
-			if len(s.Body.List) == 1 { // guard: if cond { return }
+			nonPrint := 0
+			for _, bs := range s.Body.List {
+				if !k.isPrint(bs) {
+					nonPrint++
+				}
+			}
+			if nonPrint == 1 { // guard: if cond { [print…;] return }
 				if k.deleg != nil || len(k.abstracts) > 0 {
 					k.fail(s, "early return after a delegating branch")
 				}
-				k.guards = append(k.guards, guardRec{len(k.preLets), c})
+				for _, bs := range s.Body.List {
+					if k.isPrint(bs) {
+						rel, line := k.relPos(bs)
+						k.ignored = append(k.ignored, fmt.Sprintf("%s:%d", rel, line))
+					}
+				}
+				for _, v := range k.results {
+					if v.everAssigned {
+						k.fail(s, "early return after the named result %s has been assigned", v.name)
+					}
+				}
+				k.guards = append(k.guards, guardRec{len(k.preLets), c, k.preInd})
 				guardRets = append(guardRets, last)
 				continue
 			}
@@ -356,12 +432,24 @@ func (k *kernel) translate() (text string, rep report) {
 			}
 			k.returningBranch(s, c, last)
 		case *ast.AssignStmt:
+			if len(s.Rhs) == 1 {
+				if call, ok := s.Rhs[0].(*ast.CallExpr); ok && k.callMayPanic(call) { // x := f(…) that may panic: the rest goes deeper
+					k.bindPartial(k.preInd, s, call, nil, func(ind int) { k.preInd = ind })
+					continue
+				}
+			}
 			if len(s.Lhs) > 1 && len(s.Rhs) == 1 {
-				k.multiAssign(0, s)
+				k.multiAssign(k.preInd, s)
 				continue
 			}
 			if len(s.Lhs) != 1 || len(s.Rhs) != 1 {
 				k.fail(s, "multiple assignment")
+			}
+			if ix, ok := s.Lhs[0].(*ast.IndexExpr); ok {
+				if x, ok := ix.X.(*ast.Ident); ok && k.lookup(x.Name) != nil && k.lookup(x.Name).kind == vSlice {
+					k.stmts([]ast.Stmt{s}, k.preInd, func(int) {})
+					continue
+				}
 			}
 			id, _ := s.Lhs[0].(*ast.Ident)
 			if id != nil && s.Tok == token.DEFINE {
@@ -376,6 +464,10 @@ func (k *kernel) translate() (text string, rep report) {
 						}
 					}
 				}
+				if k.idx.constIdx[id.Name] && k.indexVector(k.preInd, id, s.Rhs[0]) { // a constant index vector
+					k.preLocals = append(k.preLocals, k.lookup(id.Name))
+					continue
+				}
 				if c, ok := s.Rhs[0].(*ast.CompositeLit); ok && len(c.Elts) == 1 { // idx := []int{0}
 					at, _ := c.Type.(*ast.ArrayType)
 					z, _ := c.Elts[0].(*ast.BasicLit)
@@ -386,8 +478,12 @@ func (k *kernel) translate() (text string, rep report) {
 						}
 					}
 				}
+				if c, ok := s.Rhs[0].(*ast.CallExpr); ok && errOnly(k.resolveFunc(c.Fun)) { // err := check(…)
+					k.configCheck(id, c)
+					continue
+				}
 			}
-			k.assign(0, s.Lhs[0], s.Tok, s.Rhs[0], s)
+			k.assign(k.preInd, s.Lhs[0], s.Tok, s.Rhs[0], s)
 		default:
 			k.fail(s, "statement %T before the loop", s)
 		}
@@ -400,9 +496,13 @@ func (k *kernel) translate() (text string, rep report) {
 		}
 		v.state = true
 	}
-	for _, r := range guardRets { // a guard must return the (unchanged) state
-		if len(r.Results) != 0 || len(k.states) != 0 {
+	for _, r := range guardRets { // a guard must return the (unchanged) state, or the zero values of the named results
+		named := len(k.results) > 0 && len(k.results) == len(k.states)
+		if len(r.Results) != 0 || (len(k.states) != 0 && !named) {
 			k.fail(r, "early return in a kernel with state")
+		}
+		if len(k.states) != 0 {
+			k.guardZero = true
 		}
 	}
 	// the loop header: for i := 0; i < n; i++
@@ -435,6 +535,7 @@ func (k *kernel) translate() (text string, rep report) {
 	if !okHeader {
 		k.fail(loop, "loop header other than `for i := 0; i < n; i++` over a series length")
 	}
+	k.partial = k.nodePartial(loop.Body)
 	k.push()
 	k.loopVar = k.declare(iv, vLoop)
 	k.inLoop = true
@@ -446,8 +547,30 @@ func (k *kernel) translate() (text string, rep report) {
 	for _, o := range k.outputs {
 		k.line(1, "let %s : α := Num.zero", k.outVar[o].lean)
 	}
+	loopScope := k.sc
 	k.block(loop.Body, 1, k.leaf)
 	k.stepText = step.String()
+	if len(postStmts) > 0 {
+		// the statements after the loop see the final state (and the pre-loop values they read)
+		if ret != nil && len(ret.Results) != 0 && len(k.states) != len(ret.Results) {
+			k.fail(postStmts[0], "statements after the loop in a function that returns expressions")
+		}
+		stepPartial := k.partial
+		k.sc = loopScope.parent
+		k.inFinal = true
+		k.postPartial = k.nodePartial(&ast.BlockStmt{List: postStmts})
+		k.partial = k.postPartial
+		k.frames, k.frameBase, k.loopNest = nil, 0, 0
+		var fin strings.Builder
+		k.out = &fin
+		k.stmts(postStmts, 1, func(ind int) {
+			k.countLeaf()
+			k.line(ind, "%s", k.wrap(tupleOf(k.states)))
+		})
+		k.postText = fin.String()
+		k.partial = stepPartial
+		k.inFinal = false
+	}
 	return k.render(rel, pos.Line, &rep)
 }
 
@@ -484,14 +607,7 @@ func names(vs []*variable) []string {
 }
 
 func binder(vs []*variable) string {
-	if len(vs) == 0 {
-		return ""
-	}
-	ns := []string{}
-	for _, v := range vs {
-		ns = append(ns, v.lean)
-	}
-	return " (" + strings.Join(ns, " ") + " : α)"
+	return binderVs(vs)
 }
 
 func (k *kernel) abstractFns() []*helperDef {
@@ -512,7 +628,7 @@ func (k *kernel) stepParams() (params, live []*variable) {
 		}
 	}
 	for _, v := range k.scalars {
-		if !v.state {
+		if !v.state && !v.reassigned {
 			params = append(params, v)
 		}
 	}
@@ -521,6 +637,16 @@ func (k *kernel) stepParams() (params, live []*variable) {
 
 func (k *kernel) render(rel string, line int, rep *report) (string, report) {
 	fn := k.fn
+	// an int parameter the body does not use is not a parameter of the definitions
+	var scal []*variable
+	for _, v := range k.scalars {
+		if v.kind == vIntVar && !v.used && !v.state {
+			k.ints = append(k.ints, v.name)
+			continue
+		}
+		scal = append(scal, v)
+	}
+	k.scalars = scal
 	params, live := k.stepParams()
 	sts := k.allStates()
 	var b strings.Builder
@@ -578,6 +704,10 @@ func (k *kernel) render(rel string, line int, rep *report) (string, report) {
 		fmt.Fprintf(&b, "   series passed whole to a function (abstract type σ): %s\n", strings.Join(names(k.tables), " "))
 	}
 	for _, a := range k.absCalls {
+		if a.typ != "" {
+			fmt.Fprintf(&b, "   ABSTRACT function (NOT translated, an argument of step: %s): %s (%s:%d)\n", a.desc, a.lean, a.rel, a.line)
+			continue
+		}
 		fmt.Fprintf(&b, "   ABSTRACT function with an error result (NOT translated, an argument of step; none = the error is non-nil, "+
 			"on which the code panics): %s (%s:%d)\n", a.lean, a.rel, a.line)
 	}
@@ -595,7 +725,11 @@ func (k *kernel) render(rel string, line int, rep *report) (string, report) {
 	abs := ""
 	for _, h := range k.hs.order {
 		if h.abstract != "" {
-			abs += fmt.Sprintf(" (%s : %s)", h.lean, strings.Repeat("α → ", h.nin)+tupleType(h.nout))
+			if h.typ != "" {
+				abs += fmt.Sprintf(" (%s : %s)", h.lean, h.typ)
+			} else {
+				abs += fmt.Sprintf(" (%s : %s)", h.lean, strings.Repeat("α → ", h.nin)+tupleType(h.nout))
+			}
 			rep.AbstractHelpers = append(rep.AbstractHelpers, h.lean+": "+h.abstract)
 			continue
 		}
@@ -625,10 +759,39 @@ func (k *kernel) render(rel string, line int, rep *report) (string, report) {
 	}
 	if k.hasLoop {
 		// guard
-		fmt.Fprintf(&b, "/-- the kernel returns before the loop (no output is written) -/\ndef guard {α : Type} [Num α]%s : Bool :=\n", all)
-		if len(k.guards) == 0 {
-			b.WriteString("  false\n")
-		} else {
+		indent := func(ind int) string { return strings.Repeat("  ", 1+ind) }
+		optPre := func(t string, n int) string {
+			if !k.prePartial {
+				return t
+			}
+			return "Option " + paren(t, map[bool]int{true: pAtom, false: 0}[n == 1], pAtom)
+		}
+		wrapPre := func(val string) string {
+			if !k.prePartial {
+				return val
+			}
+			return "some " + paren(val, map[bool]int{true: pAtom, false: 0}[closedParen(val)], pAtom)
+		}
+		switch {
+		case len(k.guards) == 0:
+			fmt.Fprintf(&b, "/-- the kernel returns before the loop (no output is written) -/\ndef guard {α : Type} [Num α]%s : Bool :=\n  false\n", all)
+		case k.prePartial:
+			if len(k.guards) != 1 {
+				k.fail(fn, "several early returns in a kernel whose pre-loop statements may panic")
+			}
+			g := k.guards[0]
+			zero := ""
+			if k.guardZero {
+				zero = "; the named results keep their zero values"
+			}
+			fmt.Fprintf(&b, "/-- the kernel returns before the loop (no output is written%s); none = a pre-loop statement panics -/\n"+
+				"def guard {α : Type} [Num α]%s : Option Bool :=\n%s%ssome (%s)\n", zero, all, preLets(g.nLets), indent(g.ind), g.cond)
+		default:
+			zero := ""
+			if k.guardZero {
+				zero = "; the named results keep their zero values"
+			}
+			fmt.Fprintf(&b, "/-- the kernel returns before the loop (no output is written%s) -/\ndef guard {α : Type} [Num α]%s : Bool :=\n", zero, all)
 			done, closing := 0, ""
 			for gi, g := range k.guards {
 				for _, l := range k.preLets[done:g.nLets] {
@@ -646,19 +809,27 @@ func (k *kernel) render(rel string, line int, rep *report) (string, report) {
 		// pre
 		if len(live) > 0 {
 			fmt.Fprintf(&b, "/-- values computed before the loop and used in it: %s -/\ndef pre {α : Type} [Num α]%s : %s :=\n",
-				strings.Join(names(live), ", "), all, tupleType(len(live)))
+				strings.Join(names(live), ", "), all, optPre(tupleTypeVs(live), len(live)))
 			b.WriteString(preLets(len(k.preLets)))
-			b.WriteString("  " + tupleOf(live) + "\n")
+			b.WriteString(indent(k.preInd) + wrapPre(tupleOf(live)) + "\n")
 		}
 		if len(sts) > 0 {
-			fmt.Fprintf(&b, "/-- the state variables on entry to the loop -/\ndef init {α : Type} [Num α]%s : %s :=\n", all, tupleType(len(sts)))
+			fmt.Fprintf(&b, "/-- the state variables on entry to the loop -/\ndef init {α : Type} [Num α]%s : %s :=\n", all,
+				optPre(tupleTypeVs(sts), len(sts)))
 			b.WriteString(preLets(len(k.preLets)))
-			b.WriteString("  " + tupleOf(sts) + "\n")
+			b.WriteString(indent(k.preInd) + wrapPre(tupleOf(sts)) + "\n")
 		}
 		fmt.Fprintf(&b, "/-- one iteration: parameters, pre-loop values, state, inputs at this step ↦ %s -/\n",
 			map[bool]string{true: "(new state, outputs at this step)", false: "outputs at this step"}[len(sts) > 0 && len(k.outputs) > 0])
-		sigma, ret := "", stepType(len(sts), len(k.outputs))
+		sigma, ret := "", stepTypeVs(sts, len(k.outputs))
+		needSigma := len(k.tables) > 0
 		for _, a := range k.absCalls {
+			if a.typ != "" {
+				sigma += fmt.Sprintf(" (%s : %s)", a.lean, a.typ)
+				rep.AbstractHelpers = append(rep.AbstractHelpers, fmt.Sprintf("%s (%s:%d): %s", a.lean, a.rel, a.line, a.desc))
+				continue
+			}
+			needSigma = true
 			t := ""
 			for _, c := range a.kinds {
 				t += map[byte]string{'f': "α → ", 's': "σ → "}[c]
@@ -666,8 +837,13 @@ func (k *kernel) render(rel string, line int, rep *report) (string, report) {
 			sigma += fmt.Sprintf(" (%s : %sOption α)", a.lean, t)
 			rep.AbstractHelpers = append(rep.AbstractHelpers, fmt.Sprintf("%s (%s:%d): results (float64, error), takes whole series", a.lean, a.rel, a.line))
 		}
-		if len(k.absCalls) > 0 || len(k.tables) > 0 {
+		if needSigma {
 			sigma = " {σ : Type}" + sigma
+		}
+		sigmaFinal := sigma
+		if len(k.fuels) > 0 {
+			sigma += " (" + strings.Join(k.fuels, " ") + " : Nat)"
+			rep.Fuel = k.fuels
 		}
 		if k.partial {
 			ret = "Option (" + ret + ")"
@@ -679,6 +855,14 @@ func (k *kernel) render(rel string, line int, rep *report) (string, report) {
 		fmt.Fprintf(&b, "def step {α : Type} [Num α]%s%s%s%s%s%s%s : %s :=\n", sigma, binder(params), abs, binder(live), binder(sts),
 			binder(k.inputs), tables, ret)
 		b.WriteString(k.stepText)
+		if k.postText != "" {
+			fret := tupleTypeVs(k.states)
+			if k.postPartial {
+				fret = "Option " + paren(fret, map[bool]int{true: pAtom, false: 0}[len(k.states) == 1], pAtom)
+			}
+			fmt.Fprintf(&b, "/-- the statements after the loop: parameters, pre-loop values, final state ↦ the returned values -/\n")
+			fmt.Fprintf(&b, "def final {α : Type} [Num α]%s%s%s%s%s : %s :=\n%s", sigmaFinal, binder(params), abs, binder(live), binder(sts), fret, k.postText)
+		}
 	}
 	fmt.Fprintf(&b, "end %s\n", ns)
 	rep.Status = "ok"
@@ -721,7 +905,7 @@ func runKernel(mk func() *kernel) (text string, rep report, k *kernel) {
 	}
 }
 
-func translateOne(w *world, dir, fname string, nonNil bool) (text string, rep report) {
+func translateOne(w *world, dir, fname string, nonNil, whole, lift bool) (text string, rep report) {
 	rep = report{Func: fname, File: dir, Status: "missing", Reason: "function not found in " + dir}
 	p := w.load(dir)
 	fd, ok := p.funcs[fname]
@@ -741,9 +925,15 @@ func translateOne(w *world, dir, fname string, nonNil bool) (text string, rep re
 				text, rep = "", report{Func: fname, File: rel, Line: pos.Line, Status: "unsupported", Reason: u.msg}
 			}
 		}()
+		if whole {
+			k := &kernel{w: w, p: p, file: f, fn: fd, imp: imports(f), nonNil: nonNil, hs: newHelperSet(), leanOf: map[token.Pos]string{},
+				used: map[string]bool{}, lits: closureLits(fd.Body), whole: true}
+			text, rep = k.translateWhole()
+			return
+		}
 		text, rep, _ = runKernel(func() *kernel {
 			return &kernel{w: w, p: p, file: f, fn: fd, imp: imports(f), nonNil: nonNil, hs: newHelperSet(), leanOf: map[token.Pos]string{},
-				used: map[string]bool{}}
+				used: map[string]bool{}, lits: closureLits(fd.Body), liftLoops: lift}
 		})
 	}()
 	return
